@@ -40,6 +40,12 @@ TARGETED = [
     "import numpy as np\n\n\ndef f(a, b):\n    x = [i * 2 for i in a]\n    y = [j for j in b if j]\n    return np.array(x), np.array(y), sum([1 for _ in a])\n",
 ]
 
+SAME_TEXT = [
+    "class Greeter:\n    def banner(self):\n        return 'hello'\n\n    def greet(self, name):\n        return self.banner() + name\n\n\nprint(Greeter().greet('x'))\n",
+    "import os\n\n\nclass Tool:\n    def sep(self):\n        return os.sep\n\n    @classmethod\n    def make(cls):\n        return Tool()\n\n\nprint(Tool.make().sep())\n",
+    "def f(xs):\n    out = []\n    for x in xs:\n        if x:\n            out.append(x * 2)\n    return out\n\n\nprint(f([1, 0, 2]))\n",
+]
+
 SNIPPET = r"""
 import sys, json
 sys.path.insert(0, %r)
@@ -204,6 +210,11 @@ def run(tier, seed):
         for i, src in enumerate(picks):
             folder = ["", "pkg_a", "pkg_a/sub", "pkg_b"][i % 4]
             mods[os.path.join(folder, f"mod_{i}.py")] = src
+        # byte-identical copies in other folders (vendored files): which worker formats the second copy, and what that worker
+        # formatted before, must not matter
+        for i, src in enumerate(picks[:4] + SAME_TEXT):
+            mods[os.path.join("vendor", f"copy_{i}.py")] = src
+            mods[os.path.join("pkg_b", "vendored", f"copy_{i}.py")] = src
         trees.append(mods)
     configs = [(1, None), (2, 7), (4, 3), (16, 11)] if tier == "quick" else [(1, None), (1, 5), (2, 7), (3, 1), (4, 3), (8, 2), (16, 11), (16, 12)]
     sjobs = [(mods, nc, sh, mp_) for mods in trees for mp_ in ((1, 2) if tier == "quick" else (1, 2, 3)) for nc, sh in configs]
@@ -232,7 +243,7 @@ def run(tier, seed):
                     fl.append({"id": f"schedule:files::{ti}::{mp_}::{nc}", "cls": "schedule:files-differ", "input": json.dumps({f: mods.get(f) for f in diff[:2]})[:2000],
                                "observed": f"n_cores={nc} shuffled({sh}) max_passes={mp_}: files {diff[:3]} differ from the sequential run", "required": "exactly the files the sequential run gives"})
     out.append({"name": "c06-worker-schedules", "function": "main.format_files", "contract": "tree content and return value equal those of the sequential run (n_cores=1, sorted list)",
-                "space": f"{len(trees)} trees of 18 modules in 4 folders x max_passes x (n_cores, shuffle seed) in {configs}", "bound": "enumerated configurations; OS scheduling of pool workers not controlled",
+                "space": f"{len(trees)} trees of 32 modules in 6 folders (14 of them byte-identical copies of others) x max_passes x (n_cores, shuffle seed) in {configs}", "bound": "enumerated configurations; OS scheduling of pool workers not controlled",
                 "evaluations": evals, "distinct_nontrivial": len(trees), "exhaustive": False, "failures": P.cap(fl), "samples": [list(trees[0])[0]]})
     return out
 
